@@ -1,7 +1,7 @@
 (* Correspondence checker for the multiplexed operators: the slot-level machine bm (den_pipe p)
    is run on the trace the implementation was run on; outputs are compared step by step. *)
 From Coq Require Import List ZArith Bool.
-From RxVerif Require Import Base.Corr Mux.Val Mux.Sim Mux.SimExt Mux.Ops Mux.Syntax Mux.Plain Mux.PlainTimed Mux.Boundaries.
+From RxVerif Require Import Base.Corr Mux.Val Mux.Sim Mux.SimExt Mux.Ops Mux.Syntax Mux.Plain Mux.PlainTimed Mux.Boundaries Mux.QuietProofs.
 Import ListNotations.
 
 Inductive oev :=
@@ -35,6 +35,8 @@ Inductive muxcase :=
    mask drops the boundaries inside the expansion of a derived operator (mean = scan ; map), which
    the real code, having one operator there, cannot tap *)
 | MCBnd (p : list op) (t : list iev) (mask : list bool) (taps : list (list oev))
+(* the pipeline satisfies the hypothesis of QuietProofs.nothing_held_back *)
+| MCPerItem (p : list op)
 | MCAnd (a b : muxcase).
 Definition mux_model (p : list op) (t : list iev) : list (list oev) := map (map norm) (run_pipe p t).
 Definition plain_agrees (p : list op) (r : list val * list val) : bool :=
@@ -62,5 +64,6 @@ Fixpoint mux_check (c : muxcase) : bool :=
   | MCPlain p runs => forallb (plain_agrees p) runs
   | MCPlainT p runs => forallb (plain_timed_agrees p) runs
   | MCBnd p t mask taps => list_eqb (list_eqb oev_same) (keep mask (map (map norm) (bnd_pipe p t))) taps
+  | MCPerItem p => per_item_pipe p
   | MCAnd a b => mux_check a && mux_check b
   end.
